@@ -46,9 +46,18 @@ int __wrap_idn2_to_ascii_8z(const char *input, char **output, int flags)
     }
     if (mode && code) {
         if (buf && output) { char *p = malloc(24); strcpy(p, "left.over.example"); *output = p; }
+        errno = ENOMEM;
         return code;
     }
-    return __real_idn2_to_ascii_8z(input, output, flags);
+    {
+        /* VERIF_IDN_ERRNO=1: the converter works as usual but leaves a non-zero errno behind (a library may probe files, call iconv ...):
+         * its return code alone says whether the conversion failed */
+        static int leave = -1;
+        int rc = __real_idn2_to_ascii_8z(input, output, flags);
+        if (leave < 0) leave = getenv("VERIF_IDN_ERRNO") ? 1 : 0;
+        if (leave) errno = ENOENT;
+        return rc;
+    }
 }
 #endif
 
